@@ -853,7 +853,9 @@ func (d *DotGit) ObjectsWithPrefix(prefix []byte) ([]plumbing.Hash, error) {
 				return bytes.Compare(d.objectList[i].Bytes(), limPrefix) >= 0
 			})
 		}
-		return d.objectList[first:lim], nil
+		// Cap the result at lim: callers append to it (HashesWithPrefix),
+		// which must not overwrite the rest of the cached list.
+		return d.objectList[first:lim:lim], nil
 	}
 
 	// This is the slow path.
